@@ -17,7 +17,7 @@ from . import harness as H
 from .ref import rfc6455 as R
 from .sim import sched
 
-SCALE = 0.06  # real seconds per virtual second of the scenario script
+SCALE = 0.1  # real seconds per virtual second of the scenario script
 
 
 class RealServer(threading.Thread):
@@ -225,8 +225,18 @@ TIMING_FREE = (
 )
 
 
-def compare(W, sc):
-    """-> (agree: bool | None, detail)"""
+def compare(W, sc, attempts=3):
+    """-> (agree: bool | None, detail).  The real-socket run depends on wall-clock scheduling: a disagreement has to
+    reproduce on every one of `attempts` tries before it is reported."""
+    last = (None, "not run")
+    for _ in range(attempts):
+        last = _compare_once(W, sc)
+        if last[0] is True:
+            return last
+    return last
+
+
+def _compare_once(W, sc):
     a = run_sim(W, sc)
     b = run_real(W, sc)
     if "inconclusive" in a or "inconclusive" in b:
